@@ -485,6 +485,29 @@ func setHasOverlap(set string) bool {
 	return false
 }
 
+// setAscending: the elements of the set are written in ascending order without overlap (1,3  2:4,6  but not 3,1  4:2  2,2:3).
+func setAscending(set string) bool {
+	rs, ok := parseSet(set)
+	if !ok {
+		return true
+	}
+	last := 0
+	for _, r := range rs {
+		if r.lo == -1 || r.hi == -1 {
+			if r.lo != -1 && r.lo <= last {
+				return false
+			}
+			last = 1 << 30
+			continue
+		}
+		if r.lo > r.hi || r.lo <= last {
+			return false
+		}
+		last = r.hi
+	}
+	return true
+}
+
 // ---- fresh observation ----
 
 var reMarker = regexp.MustCompile(`(?i)X-Marker:\s*m(\d+)`)
@@ -836,6 +859,24 @@ func (w *world) exec(o op) error {
 		}
 		w.fail = &failure{Idx: idx, Kind: o.Kind + "/" + k, Detail: dd}
 	}
+	if w.fail == nil && got == "OK" && expect == "OK" && (o.Kind == "COPY" || o.Kind == "MOVE") {
+		nCopied := len(targets)
+		if o.Kind == "MOVE" { // only what the mailbox still holds is moved
+			nCopied = 0
+			if b := pre.box(selBox); b != nil {
+				for _, t := range targets {
+					if b.find(t) >= 0 {
+						nCopied++
+					}
+				}
+			}
+		}
+		if d := checkCopyUID(r, viewAt, post.box(o.Box), nCopied); d != "" {
+			w.fail = &failure{Idx: idx, Kind: o.Kind + "/copyuid", Detail: d}
+		} else if w.record && len(targets) > 1 {
+			w.sit(o, "copyuid-pairs-checked")
+		}
+	}
 	if w.fail == nil {
 		for _, x := range viewAt {
 			if x.Ghost {
@@ -875,6 +916,72 @@ func (w *world) exec(o op) error {
 		w.steps = append(w.steps, coqAfter)
 	}
 	return nil
+}
+
+var reCopyUID = regexp.MustCompile(`\[COPYUID \d+ (\S+) (\S+)\]`)
+
+// expandUIDSet lists the UIDs of a set of COPYUID in the order written (ranges ascending).
+func expandUIDSet(set string) ([]int, bool) {
+	var out []int
+	for _, p := range strings.Split(set, ",") {
+		lo, hi := p, p
+		if i := strings.Index(p, ":"); i >= 0 {
+			lo, hi = p[:i], p[i+1:]
+		}
+		a, err1 := strconv.Atoi(lo)
+		b, err2 := strconv.Atoi(hi)
+		if err1 != nil || err2 != nil || a < 1 || b < 1 || b-a > 1<<20 || a-b > 1<<20 {
+			return nil, false
+		}
+		if a > b {
+			a, b = b, a
+		}
+		for u := a; u <= b; u++ {
+			out = append(out, u)
+		}
+	}
+	return out, true
+}
+
+// checkCopyUID: the COPYUID response code of an accepted COPY / MOVE (tagged for COPY, untagged for MOVE) pairs source and
+// destination UIDs position by position; every pair must name the same message: the row of the session's view with the
+// source UID and the entry of the destination with the destination UID (reference after the command) hold the same entity.
+func checkCopyUID(r imapc.Result, view []vrow, dst *mbox, nTargets int) string {
+	text := r.Text
+	for _, l := range r.Untagged {
+		if strings.Contains(l.Text, "[COPYUID ") {
+			text = l.Text
+		}
+	}
+	m := reCopyUID.FindStringSubmatch(text)
+	if m == nil {
+		if nTargets > 0 && dst != nil {
+			return "no COPYUID response code although messages were copied"
+		}
+		return ""
+	}
+	src, ok1 := expandUIDSet(m[1])
+	dstU, ok2 := expandUIDSet(m[2])
+	if !ok1 || !ok2 || len(src) != len(dstU) {
+		return fmt.Sprintf("COPYUID %s %s: the sets do not have the same number of UIDs", m[1], m[2])
+	}
+	for i := range src {
+		se := 0
+		for _, x := range view {
+			if x.UID == src[i] && !x.Ghost {
+				se = x.Ent
+			}
+		}
+		de, ok := dst.byUID(dstU[i])
+		if se == 0 || !ok || de.Ent != se {
+			dn := "nothing"
+			if ok {
+				dn = entName(de.Ent)
+			}
+			return fmt.Sprintf("COPYUID %s %s pairs source UID %d (%s) with destination UID %d (%s)", m[1], m[2], src[i], entName(se), dstU[i], dn)
+		}
+	}
+	return ""
 }
 
 func expectWord(e string) string {
@@ -988,6 +1095,12 @@ func (w *world) recordSituations(o op, s *session, selBox string, view []vrow, p
 		}
 		if setHasOverlap(o.Set) {
 			w.sit(o, "overlap-set")
+		}
+		if n > 1 && !setAscending(o.Set) {
+			w.sit(o, "set-not-ascending")
+			if o.UID {
+				w.sit(o, "uid-set-not-ascending")
+			}
 		}
 		if n > 1 {
 			w.sit(o, "multi")
